@@ -775,6 +775,14 @@ def updateE (mx : Nat) (t : Table) (c : Cond) (sets : List (Nat × Value)) :
     | .error e => .error e
     | .ok l => .ok (.ok (l.foldl (updateOne sets) t, l.length))
 
+/-- index DDL (the operations that must only change speed) -/
+def Op.isIndexOp : Op → Bool
+  | .createHash _ => true
+  | .createOrd _ => true
+  | .dropHash _ => true
+  | .dropOrd _ => true
+  | _ => false
+
 /-! ## the defective variants found on the real engine, kept for the `_witness` theorems only -/
 
 /-- `select_with_limit` index path as written: truncates the raw index ids to offset+limit
